@@ -1,0 +1,71 @@
+//! Verification hooks (only compiled with the `verif_hooks` feature).
+//!
+//! Nothing in this module changes behaviour unless a test harness installs a
+//! callback: `sync_point` is a no-op without a callback, and the write-behind
+//! statistics are plain counters.
+
+use std::{
+    cell::RefCell,
+    sync::{
+        Arc,
+        atomic::{AtomicU64, Ordering},
+    },
+};
+
+use parking_lot::RwLock;
+
+/// Counters of one write-behind manager, readable by a harness.
+#[derive(Debug, Default)]
+pub struct WriteBehindStats {
+    /// write batches submitted so far
+    pub submitted: AtomicU64,
+    /// write batches whose after-commit cache notifications have completed
+    pub after_commit_done: AtomicU64,
+}
+
+impl WriteBehindStats {
+    /// Number of batches submitted.
+    #[must_use]
+    pub fn submitted(&self) -> u64 { self.submitted.load(Ordering::SeqCst) }
+
+    /// Number of batches whose after-commit notifications are done.
+    #[must_use]
+    pub fn after_commit_done(&self) -> u64 {
+        self.after_commit_done.load(Ordering::SeqCst)
+    }
+}
+
+thread_local! {
+    static REGISTERED: RefCell<Vec<Arc<WriteBehindStats>>> =
+        const { RefCell::new(Vec::new()) };
+}
+
+pub(crate) fn register_write_behind_stats(stats: &Arc<WriteBehindStats>) {
+    REGISTERED.with(|r| r.borrow_mut().push(stats.clone()));
+}
+
+/// Takes the statistics handles of all write-behind managers created on the
+/// calling thread since the last call.
+#[must_use]
+pub fn take_registered_write_behind_stats() -> Vec<Arc<WriteBehindStats>> {
+    REGISTERED.with(|r| std::mem::take(&mut *r.borrow_mut()))
+}
+
+/// A rendezvous callback; receives the tag of the sync point reached.
+pub type SyncPointCallback = Arc<dyn Fn(&'static str) + Send + Sync>;
+
+static SYNC_POINT: RwLock<Option<SyncPointCallback>> = RwLock::new(None);
+
+/// Installs (or removes) the process-wide sync-point callback.
+pub fn set_sync_point_callback(callback: Option<SyncPointCallback>) {
+    *SYNC_POINT.write() = callback;
+}
+
+/// Named rendezvous point; calls the installed callback, if any.
+pub fn sync_point(tag: &'static str) {
+    let callback = SYNC_POINT.read().clone();
+
+    if let Some(callback) = callback {
+        callback(tag);
+    }
+}
